@@ -38,7 +38,7 @@ type TaskCase struct {
 	CondStatus int    `json:"cond_status,omitempty"` // exit status of a false condition (default 1)
 	Pipeline   bool   `json:"pipeline"`
 	EmptyVar   int    `json:"empty_var,omitempty"` // this variation (1-based) is an empty map: it varies nothing but is a declared variation all the same
-	StageOv    string `json:"stage_ov,omitempty"` // with Pipeline: the stage carries an override (env, vars, dir), so the scheduler runs a copy of the task
+	StageOv    string `json:"stage_ov,omitempty"`  // with Pipeline: the stage carries an override (env, vars, dir), so the scheduler runs a copy of the task
 }
 
 func (c TaskCase) String() string {
@@ -288,10 +288,15 @@ func main() {
 			Cp    *cpCase   `json:"cp"`
 			Hist  *histCase `json:"hist"`
 			Pipe3 *TaskCase `json:"pipe3"`
+			Tail  *tailCase `json:"tail"`
 		}
 		common.ReadReplay(&rf)
 		bad := false
-		if rf.Pipe3 != nil {
+		if rf.Tail != nil {
+			d := runTail(*rf.Tail)
+			fmt.Printf("tail case %+v: %s\n", *rf.Tail, d)
+			bad = d != ""
+		} else if rf.Pipe3 != nil {
 			k, d := runPipe3(*rf.Pipe3)
 			fmt.Printf("pipeline a->b, c with a = %s: %s %s\n", *rf.Pipe3, k, d)
 			bad = k != ""
@@ -491,6 +496,8 @@ func main() {
 				goto done
 			}
 		}
+	case "rawtail": // C19: output of failing commands, unterminated tails
+		tailUnit(res)
 	case "pipe3": // C02 on the real runner
 		pipe3Unit(res, target)
 	case "history2": // k<=2 commands, histories of 2 and 3 runs
@@ -691,6 +698,7 @@ type toCase struct {
 	Position  string `json:"position"` // "1","2","3","before","after"
 	Allow     bool   `json:"allow"`
 	Prior     bool   `json:"prior,omitempty"` // the command before the overrunning one exits non-zero (tolerated: allow_failure)
+	Stage     bool   `json:"stage,omitempty"` // the task runs as a pipeline stage that carries an env override (the scheduler runs a copy of the task)
 	Var2      bool   `json:"var2,omitempty"`  // the task has two variations and the command overruns in the second one only
 }
 
@@ -774,7 +782,17 @@ func runTimeout(c toCase) string {
 	r.Stdout, r.Stderr, r.OutputFormat = io.Discard, io.Discard, output.FormatRaw
 	start := time.Now()
 	done := make(chan error, 1)
-	go func() { done <- r.Run(t) }()
+	var stageSt *scheduler.Stage
+	if c.Stage {
+		stageSt = &scheduler.Stage{Name: "s", Task: t, Env: variables.FromMap(map[string]string{"STAGE_ENV": "1"})}
+		g, err := scheduler.NewExecutionGraph(stageSt)
+		if err != nil {
+			return "infra: " + err.Error()
+		}
+		go func() { done <- scheduler.NewScheduler(r).Schedule(g) }()
+	} else {
+		go func() { done <- r.Run(t) }()
+	}
 	var runErr error
 	limit := d + 10*time.Second
 	select {
@@ -792,6 +810,17 @@ func runTimeout(c toCase) string {
 		return fmt.Sprintf("KIND:fast-command-affected:markers %v, expected %v (elapsed %s)", got, want, elapsed.Round(time.Millisecond))
 	}
 	// a failing before hook makes Run return an error; which result fields it sets is not prescribed
+	if c.Stage {
+		// the scheduler ran a copy of the task: the verdict is the run's error and the stage's status
+		failed := stageSt.ReadStatus() == scheduler.StatusError
+		if wantErr && (runErr == nil || !failed) {
+			return fmt.Sprintf("KIND:overrun-not-reported:Schedule returned %v, stage status %d after the stage's command overran its timeout (allow_failure=%v)", runErr, stageSt.ReadStatus(), c.Allow)
+		}
+		if !wantErr && (runErr != nil || failed) {
+			return fmt.Sprintf("KIND:spurious-failure:Schedule returned %v, stage status %d although every command finished within the timeout", runErr, stageSt.ReadStatus())
+		}
+		return ""
+	}
 	if wantErr && (runErr == nil || (!t.Errored && c.Position != "before")) {
 		return fmt.Sprintf("KIND:overrun-not-reported:Run returned %v, Errored=%v after the command overran its timeout (allow_failure=%v)", runErr, t.Errored, c.Allow)
 	}
@@ -810,7 +839,7 @@ func timeoutUnit(res *common.Result) {
 			return false
 		}
 		res.Evaluations++
-		distinct[fmt.Sprint(c.Shape, c.Position, c.Allow, c.Prior, c.Var2)] = true
+		distinct[fmt.Sprint(c.Shape, c.Position, c.Allow, c.Prior, c.Var2, c.Stage)] = true
 		if res.Evaluations%5 == 1 {
 			res.AddSample(c)
 		}
@@ -830,7 +859,7 @@ func timeoutUnit(res *common.Result) {
 			}
 		}
 		parts := strings.SplitN(d, ":", 3)
-		return res.AddViolation(common.Violation{Property: "C13", Key: fmt.Sprintf("C13:%s|shape=%s|position=%s|allow=%v|prior=%v|var2=%v|timeout=%dms", parts[1], c.Shape, c.Position, c.Allow, c.Prior, c.Var2, c.TimeoutMs), Desc: fmt.Sprintf("%+v: %s", c, parts[2]), Config: c},
+		return res.AddViolation(common.Violation{Property: "C13", Key: fmt.Sprintf("C13:%s|shape=%s|position=%s|allow=%v|prior=%v|var2=%v|stage=%v|timeout=%dms", parts[1], c.Shape, c.Position, c.Allow, c.Prior, c.Var2, c.Stage, c.TimeoutMs), Desc: fmt.Sprintf("%+v: %s", c, parts[2]), Config: c},
 			map[string]interface{}{"harness": "taskrun", "mode": "plain", "property": "C13", "to": c})
 	}
 	timeouts := []int{100, 1000}
@@ -854,6 +883,10 @@ func timeoutUnit(res *common.Result) {
 			for _, pos := range []string{"1", "2", "3", "before", "after"} {
 				for _, allow := range []bool{false, true} {
 					if do(toCase{TimeoutMs: ms, Shape: shape, Position: pos, Allow: allow}) {
+						return
+					}
+					// the task runs as a pipeline stage with an override
+					if shape == "sleep" && do(toCase{TimeoutMs: ms, Shape: shape, Position: pos, Allow: allow, Stage: true}) {
 						return
 					}
 					// the overrun happens in the second variation only
